@@ -1017,6 +1017,33 @@ pub fn c13_double_literal() {
         None => check!(got.is_err(), "a double literal out of range is a compile error"),
     }
 }
+/// C10: an error raised by the body on an element that is reached aborts the macro with that error.
+pub fn c10_error_element() {
+    let (mac, n, err_pos, bits): (u8, u8, u8, u8) = (any(), any(), any(), any());
+    crate::sym::assume(mac <= 4 && (1..=4).contains(&n) && err_pos < n);
+    let mut ctx = Context::default();
+    ctx.add_function("p", move |i: i64| -> Result<bool, ExecutionError> {
+        if i as u8 == err_pos {
+            Err(ExecutionError::function_error("p", "element fails"))
+        } else {
+            Ok((bits >> i) & 1 == 1)
+        }
+    });
+    let name = ["all", "exists", "exists_one", "map", "filter"][mac as usize];
+    let list = (0..n).map(|j| j.to_string()).collect::<Vec<_>>().join(", ");
+    let src = format!("[{}].{}(x, p(x))", list, name);
+    let got = Program::compile(&src).expect("compiles").execute(&ctx);
+    // the failing element is reached unless an earlier element already decided all / exists
+    let decided_before = (0..err_pos).any(|i| {
+        let b = (bits >> i) & 1 == 1;
+        (mac == 0 && !b) || (mac == 1 && b)
+    });
+    if decided_before {
+        check!(got == Ok(Value::Bool(mac == 1)), "elements after the deciding one are not visited");
+    } else {
+        check!(matches!(&got, Err(ExecutionError::FunctionError { .. })), "an error raised by the body on a reached element aborts the macro with that error");
+    }
+}
 /// C10: macros whose predicate / transform is a literal, over lists, maps and a non-collection receiver.
 pub fn c10_literal_predicate() {
     let (mac, pred, recv): (u8, u8, u8) = (any(), any(), any());
@@ -1399,6 +1426,7 @@ crate::replay_only! {
     #[kani::unwind(2)] c04_prefix: "off", "runs of 1-9 prefix ! / - over a literal or a variable through Program::compile + execute", "k in 1..9";
     #[kani::unwind(2)] c04_binary: "off", "x OP y for the twelve binary operator texts and ?: with operands of three shapes: references() and value", "13 operators x 9 shape pairs";
     #[kani::unwind(2)] c04_chain: "off", "chains of 1-64 logging operands under && / ||", "n in 1..64";
+    #[kani::unwind(2)] c10_error_element: "off", "the five macros over 1-4 elements with a predicate that fails on one chosen element", "5 macros x lists of 1-4 x failing position x predicate bits";
     #[kani::unwind(2)] c10_literal_predicate: "off", "the five macros with a literal predicate over lists, a map and a non-collection", "5 macros x 2 literals x 5 receivers";
     #[kani::unwind(2)] c12_literal: "off", "a string / bytes literal token through Program::compile + execute against an independent decoder of the CEL literal syntax", "token text of up to 24 characters taken from the vector";
     #[kani::unwind(2)] c13_literal: "off", "int / uint literals of every sign, radix and magnitude through Program::compile + execute", "text built from the vector";
